@@ -98,8 +98,10 @@ def gen_docstring(draw: Any, b: Builder, indent: int, kind: str, params: List[st
             for v in params:
                 if draw(st.booleans()):
                     if draw(st.booleans()):
-                        fields.append({'tag': draw(st.sampled_from(['ivar', 'cvar', 'var'])), 'arg': v, 'lines': [b.tok('w')]})
-                    fields.append({'tag': 'type', 'arg': v, 'lines': [b.tok('w')] + ([b.tok('w')] if draw(st.booleans()) else [])})
+                        # (a variable that also has a docstring of its own below its assignment shows that one: the description given by
+                        # the field is superseded, a problem in it is not a problem of anything that is shown)
+                        fields.append({'tag': draw(st.sampled_from(['ivar', 'cvar', 'var'])), 'arg': v.lstrip('+'), 'lines': [b.tok('w')], 'superseded': v.startswith('+')})
+                    fields.append({'tag': 'type', 'arg': v.lstrip('+'), 'lines': [b.tok('w')] + ([b.tok('w')] if draw(st.booleans()) else [])})
     # ---- plant problems
     nprob = draw(st.sampled_from([0, 0, 1, 1, 2, 3])) if allow_problems else 0
     planted: List[Dict[str, Any]] = []
@@ -128,9 +130,10 @@ def gen_docstring(draw: Any, b: Builder, indent: int, kind: str, params: List[st
                 has_fatal = True
         elif pk == 'xref':
             token = b.tok('nosuchT')
-            where = draw(st.sampled_from(['block'] + (['field'] if fields else [])))
+            plantable = [f_ for f_ in fields if not f_.get('superseded')]
+            where = draw(st.sampled_from(['block'] + (['field'] if plantable else [])))
             if where == 'field':
-                f = draw(st.sampled_from(fields))
+                f = draw(st.sampled_from(plantable))
                 li = draw(st.integers(0, len(f['lines']) - 1))
                 f['lines'][li] += ' ' + xref(fmt, token)
                 planted.append({'kind': 'xref', 'block': f, 'line': li, 'token': token})
@@ -287,10 +290,13 @@ def st_module():
                 gen_docstring(draw, b, 0, 'attr', [], not clean)
             else:
                 b.add('class C%d:' % oi)
-                tvars = draw(st.sampled_from([[], [], ['tv'], ['tv', 'tw']]))
+                # ('+': the variable also gets a docstring of its own, below its assignment)
+                tvars = draw(st.sampled_from([[], [], ['tv'], ['tv', 'tw'], ['+tv'], ['+tv', 'tw']]))
                 gen_docstring(draw, b, 4, 'class', tvars, not clean)
                 for tv in tvars:
-                    b.add('    %s = 2' % tv)
+                    b.add('    %s = 2' % tv.lstrip('+'))
+                    if tv.startswith('+'):
+                        gen_docstring(draw, b, 4, 'attr', [], not clean)
                 b.add('    def m(self, a):')
                 gen_docstring(draw, b, 8, 'method', ['a'], not clean)
                 b.add('        pass')
